@@ -33,7 +33,7 @@ def main():
     try:
         shutil.copytree(src, os.path.join(wt, "out_demo"))
         env = dict(os.environ, PYTHONPATH=wt, PYTHONDONTWRITEBYTECODE="1")
-        rc0, o0 = sh("/venv/bin/python out_demo/demo.py %s" % wt, cwd=wt, env=env)
+        rc0, o0 = sh("flock /tmp/pgmc-pytest.lock /venv/bin/python out_demo/demo.py %s" % wt, cwd=wt, env=env)
         meta["demo_without_change_rc"] = rc0
         rc, out = sh("git apply %s" % patch, cwd=wt)
         if rc != 0:
@@ -52,7 +52,7 @@ def main():
         m = re.search(r"(\d+) passed", ot)
         meta["tests_passed_with_change"] = int(m.group(1)) if m else None
         meta["tests_tail"] = ot.strip().splitlines()[-1] if ot.strip() else ""
-        rc1, o1 = sh("/venv/bin/python out_demo/demo.py %s" % wt, cwd=wt, env=env)
+        rc1, o1 = sh("flock /tmp/pgmc-pytest.lock /venv/bin/python out_demo/demo.py %s" % wt, cwd=wt, env=env)
         meta["demo_with_change_rc"] = rc1
         meta["demo_with_change_tail"] = o1.strip().splitlines()[-3:]
         ok = meta.get("applies") and meta["demo_without_change_rc"] == 0 and meta["demo_with_change_rc"] != 0 and meta["tests_passed_with_change"] == 119 and "failed" not in meta["tests_tail"]
